@@ -8,7 +8,9 @@ import (
 	"path/filepath"
 	"strings"
 	"sync"
+	"syscall"
 	"testing"
+	"time"
 
 	"github.com/gethiox/HIDI/internal/pkg/input"
 	"github.com/gethiox/HIDI/internal/pkg/midi/device/config"
@@ -119,6 +121,14 @@ func c12Setup(c *C12Case) (string, error) {
 			}
 			continue
 		}
+		if n.Kind == "fifo" { // a named pipe with a configuration file's name: opening it blocks until somebody writes
+			if n.Dir != c.MissingDir {
+				p := filepath.Join(root, c12Dirs[n.Dir], n.Name)
+				_ = os.MkdirAll(filepath.Dir(p), 0o755)
+				_ = syscall.Mkfifo(p, 0o644)
+			}
+			continue
+		}
 		if n.Kind == "dangling-symlink" {
 			if n.Dir != c.MissingDir {
 				_ = os.Symlink("/nonexistent/verif-target", filepath.Join(root, c12Dirs[n.Dir], n.Name))
@@ -190,7 +200,34 @@ func checkC12(c C12Case) (bool, *Violation) {
 		}
 		return guard("C12", "panic", func() *Violation {
 			var wg sync.WaitGroup
-			cfgs, lerr := config.LoadDeviceConfigs(context.Background(), &wg)
+			var cfgs config.DeviceConfigs
+			var lerr error
+			loaded := make(chan string, 1)
+			go func() {
+				defer func() {
+					if p := recover(); p != nil {
+						loaded <- fmt.Sprintf("%v\n%s", p, firstLines(allStacks(), 40))
+					}
+				}()
+				cfgs, lerr = config.LoadDeviceConfigs(context.Background(), &wg)
+				loaded <- ""
+			}()
+			select {
+			case p := <-loaded:
+				if p != "" {
+					return violation("C12", "panic", "", "LoadDeviceConfigs panicked: %s", p)
+				}
+			case <-time.After(10 * time.Second):
+				// let the loader go (it sits in open(2) of a named pipe): opening the other end ends the wait
+				for _, n := range c.Noise {
+					if n.Kind == "fifo" {
+						if f, err := os.OpenFile(filepath.Join(root, c12Dirs[n.Dir], n.Name), os.O_WRONLY|syscall.O_NONBLOCK, 0); err == nil {
+							f.Close()
+						}
+					}
+				}
+				return violation("C12", "load-hang", "", "LoadDeviceConfigs had not returned after 10 s (noise: %v): an entry that cannot be read as a file is neither reported nor skipped, nothing gets loaded", c.Noise)
+			}
 			if c.MissingDir >= 0 {
 				classify("a configuration directory is missing")
 				if lerr != nil {
@@ -326,7 +363,7 @@ func firstMappingName(dc *config.DeviceConfig) string {
 }
 
 var c12NoiseKinds = []string{"broken-toml", "fails-validation", "unknown-field", "empty", "binary", "decoder-crasher", "late-decoder-crasher", "late-syntax-error", "valid-no-suffix",
-	"valid-other-suffix", "text", "dir-named-toml", "dangling-symlink"}
+	"valid-other-suffix", "text", "dir-named-toml", "dangling-symlink", "fifo"}
 
 func c12NoiseName(t *rapid.T, kind string, i int) string {
 	// noise sorts before or after the candidate files (the loader walks a directory in lexical order)
